@@ -667,3 +667,72 @@ func (c *Ctx) promiseStoreSelfGuarded(s structStore, p *ssa.Parameter, r *Report
 		fmt.Sprintf("self-guarded: %s is called only where len(receiver.delayed) != 0 (%d call site(s)), and no package initialiser gives a shared promise delayed alternatives", m.Name(), len(sites)), true)
 	return true
 }
+
+// ---------------------------------------------------------------------------
+// R-INSERT-RECHECK (added after seed C14): an insertion into a lock-protected package-level map decides
+// "the key is absent" inside the same write-locked region (check-then-act must not straddle an unlock).
+
+func ruleInsertRecheck(c *Ctx, r *Report) {
+	const rule = "R-INSERT-RECHECK"
+	n := 0
+	for _, g := range c.libGlobals() {
+		acc := c.globalAccesses(g)
+		for _, a := range acc {
+			mu, ok := a.in.(*ssa.MapUpdate)
+			if !ok || isInitFn(a.fn) {
+				continue
+			}
+			n++
+			key := fmt.Sprintf("%s/insert@%s", fname2(g), fname(a.fn))
+			desc := "an insertion into a shared map happens only if a lookup of the same key, made under the same write lock, missed"
+			// the write lock that covers the insertion
+			var lock *gAccess
+			for i := range acc {
+				l := &acc[i]
+				if l.fn == a.fn && l.lockOp == "Lock" {
+					lb, ab := l.in.Block(), a.in.Block()
+					if (lb == ab && instrIndex(l.in) < instrIndex(a.in)) || (lb != ab && lb.Dominates(ab)) {
+						lock = l
+					}
+				}
+			}
+			if lock == nil {
+				r.bad(rule, key, c.at(mu), desc, "no write lock covers the insertion")
+				continue
+			}
+			// a comma-ok lookup of the same map and key after the Lock whose ok==false holds at the insertion
+			good := false
+			for f := range c.factsAt(mu.Block()) {
+				ex, ok := f.cond.(*ssa.Extract)
+				if !ok || ex.Index != 1 || f.pol {
+					continue
+				}
+				lk, ok := ex.Tuple.(*ssa.Lookup)
+				if !ok || !lk.CommaOk {
+					continue
+				}
+				sameMap := false
+				if l1, ok := lk.X.(*ssa.UnOp); ok {
+					if l2, ok := mu.Map.(*ssa.UnOp); ok {
+						b1, p1 := baseOfAddr(l1.X)
+						b2, p2 := baseOfAddr(l2.X)
+						sameMap = b1 == b2 && strings.Join(p1, ".") == strings.Join(p2, ".")
+					}
+				}
+				if !sameMap || !c.sameVar(lk.Index, mu.Key) {
+					continue
+				}
+				lb, kb := lock.in.Block(), lk.Block()
+				if (lb == kb && instrIndex(lock.in) < instrIndex(lk)) || (lb != kb && lb.Dominates(kb)) {
+					good = true
+				}
+			}
+			if good {
+				r.ok(rule, key, c.at(mu), desc, "dominated by the ok==false edge of a lookup of the same key made after Lock()", true)
+			} else {
+				r.bad(rule, key, c.at(mu), desc, "the decision that the key is absent is not made under this write lock: two goroutines can both miss and both insert, ending up with two ids for one name")
+			}
+		}
+	}
+	r.analysed(rule, fmt.Sprintf("%d run-time insertions into package-level maps", n))
+}
